@@ -398,6 +398,13 @@ func c14evictionLRU(r *simkit.Run) {
 	drawSrcBase(r.T)
 	capacity := rapid.IntRange(1, 4).Draw(rt, "capacity")
 	nsrc := capacity + rapid.IntRange(1, 2*capacity).Draw(rt, "extra-sources")
+	// now and then a limiter of a few hundred sources, filled first (what is true of a capacity of 3 is to be true of 300)
+	var forced []int
+	if rapid.IntRange(0, 11).Draw(rt, "large-capacity") == 0 {
+		capacity = rapid.SampledFrom([]int{255, 256, 257, 300}).Draw(rt, "capacity-large")
+		nsrc = capacity + rapid.IntRange(1, 8).Draw(rt, "extra-sources-large")
+		forced = seq(capacity)
+	}
 	var rates []rateSpec
 	for _, p := range []time.Duration{time.Second, 10 * time.Second} {
 		if len(rates) == 0 || rapid.Bool().Draw(rt, "second-rate") {
@@ -451,7 +458,7 @@ func c14evictionLRU(r *simkit.Run) {
 	h := simkit.NewHash()
 	evictions, expiries := 0, 0
 	lastAccess := map[int]time.Duration{}
-	nops := rapid.IntRange(4, 50).Draw(rt, "ops")
+	nops := len(forced) + rapid.IntRange(4, 50).Draw(rt, "ops")
 	for i := 0; i < nops; i++ {
 		// different sources are touched at least a second apart (the lifetime is kept in whole seconds)
 		d := time.Second + time.Duration(rapid.Int64Range(0, int64(2*time.Second)).Draw(rt, "dt"))
@@ -467,7 +474,12 @@ func c14evictionLRU(r *simkit.Run) {
 				planChanges++
 			}
 		}
-		s := rapid.IntRange(0, nsrc-1).Draw(rt, "src")
+		s := 0
+		if i < len(forced) {
+			s = forced[i]
+		} else {
+			s = rapid.IntRange(0, nsrc-1).Draw(rt, "src")
+		}
 		now := clock.Now().Sub(start)
 		if la, ok := lastAccess[s]; ok && now-la > 10*maxPeriod(rates)+2*time.Second {
 			expiries++
